@@ -4,6 +4,7 @@ import (
 	"fmt"
 	"go/constant"
 	"go/types"
+	"sort"
 	"strings"
 
 	"golang.org/x/tools/go/ssa"
@@ -955,6 +956,39 @@ func (ev *evaluator) evalCall(x *ECall) SV {
 			return SV{v, types.Typ[types.Int]}
 		}
 		return SV{intLit(0), types.Typ[types.Int]}
+	case "visited":
+		// visited(k [, n]): has key k been produced by the n-th (default: only) `range` over a map of the
+		// function under verification (ghost set maintained by the map-iteration model)
+		k, _ := ev.evalTerm(x.Args[0])
+		var names []string
+		for ck := range ev.curState().cells {
+			if s, ok := ck.v.(string); ok && strings.HasPrefix(s, "visited:") {
+				names = append(names, s)
+			}
+		}
+		sort.Slice(names, func(i, j int) bool {
+			if len(names[i]) != len(names[j]) {
+				return len(names[i]) < len(names[j])
+			}
+			return names[i] < names[j]
+		})
+		n := 0
+		if len(x.Args) > 1 {
+			if lit, ok := x.Args[1].(*EInt); ok {
+				fmt.Sscan(lit.Val, &n)
+			}
+		} else if len(names) > 1 {
+			ev.fail("visited(k): several map ranges, use visited(k, n)")
+		}
+		if n >= len(names) {
+			return SV{tFalse, boolT}
+		}
+		for ck, v := range ev.curState().cells {
+			if s, ok := ck.v.(string); ok && s == names[n] {
+				return SV{tSelect(v.(Term), k), boolT}
+			}
+		}
+		return SV{tFalse, boolT}
 	case "arr", "off":
 		t, _ := ev.evalTerm(x.Args[0])
 		if t.Sort != SSlice {
